@@ -555,17 +555,28 @@ Section Channel.
   Lemma dir_other_frame s s' p :
     getp s' (other p) = getp s (other p) ->
     dmsgs (other p) (net s') = dmsgs (other p) (net s) ->
-    same_resp (other p) (ctl (getp s p)) (ctl (getp s' p)) ->
+    resp_busy (ctl (getp s' p)) = resp_busy (ctl (getp s p)) ->
+    (forall st, handling (ctl (getp s p)) st (other p) -> handling (ctl (getp s' p)) st (other p)) ->
     (forall st, committed (getp s p) st -> committed (getp s' p) st) ->
     Dir s (other p) -> Dir s' (other p).
   Proof.
-    intros Ho Hd Hr Hc. unfold Dir. rewrite other_other, Ho, Hd. rewrite (sr_busy _ _ _ Hr).
+    intros Ho Hd Hb Hh Hc. unfold Dir. rewrite other_other, Ho, Hd, Hb.
     destruct (ctl (getp s (other p))); try (intro H; exact H).
     - intros [H|[H|[H|H]]]; [left; exact H|right; left|right; right; left|right; right; right; exact H].
-      + destruct H as [D H]. split; [exact D|]. apply (sr_hand _ _ _ Hr). exact H.
+      + destruct H as [D H]. split; [exact D|]. apply Hh. exact H.
       + destruct H as [D H]. split; [exact D|]. apply Hc. exact H.
     - intros (D & G & H). split; [exact D|]. split; [exact G|]. apply Hc. exact H.
     - intros (D & H). split; [exact D|]. apply Hc. exact H.
+  Qed.
+  Lemma dir_other_rview s s' p :
+    getp s' (other p) = getp s (other p) ->
+    dmsgs (other p) (net s') = dmsgs (other p) (net s) ->
+    rview (ctl (getp s' p)) = rview (ctl (getp s p)) ->
+    (forall st, committed (getp s p) st -> committed (getp s' p) st) ->
+    Dir s (other p) -> Dir s' (other p).
+  Proof.
+    intros Ho Hd Hr Hc. pose proof (rview_same (other p) _ _ Hr) as R.
+    apply dir_other_frame; auto; [apply (sr_busy _ _ _ R)|intros st; apply (sr_hand _ _ _ R)].
   Qed.
 
   Lemma committed_keep x x' st :
@@ -578,12 +589,20 @@ Section Channel.
   Qed.
 
   Lemma AG_same s s' :
-    flogs s' = flogs s -> eff s' PA = eff s PA -> (forall x, pending s x -> pending s' x) -> AG s -> AG s'.
+    (forall x, In x (flogs s') <-> In x (flogs s)) -> eff s' PA = eff s PA ->
+    (forall x, pending s x -> pending s' x) -> AG s -> AG s'.
   Proof.
-    intros Hf He Hp A N. unfold nowrap in N. rewrite Hf in N. destruct (A N) as (E & HE & IE & B & U).
-    exists E. rewrite Hf, He. split; [exact HE|]. split; [exact IE|]. split; [|exact U].
-    intros x Hx. destruct (B x Hx) as [L|[Pn V]]; auto.
+    intros Hf He Hp A N.
+    assert (N0 : nowrap s) by (intros x Hx; apply N, Hf, Hx).
+    destruct (A N0) as (E & HE & IE & B & U).
+    exists E. rewrite He. split; [exact HE|]. split; [apply Hf; exact IE|]. split.
+    - intros x Hx. apply Hf in Hx. destruct (B x Hx) as [L|[Pn V]]; auto.
+    - intros x y Hx Hy. apply U; apply Hf; assumption.
   Qed.
+  Lemma flogs_same s s' p :
+    getp s' (other p) = getp s (other p) -> flog (getp s' p) = flog (getp s p) ->
+    forall x, In x (flogs s') <-> In x (flogs s).
+  Proof. unfold flogs. destruct p; cbn [getp other]; intros -> ->; tauto. Qed.
   Lemma flogs_set s s' p :
     getp s' (other p) = getp s (other p) -> flog (getp s' p) = flog (getp s p) -> flogs s' = flogs s.
   Proof. unfold flogs. destruct p; cbn [getp other]; intros -> ->; reflexivity. Qed.
@@ -623,11 +642,11 @@ Section Channel.
     - rewrite Hp. exists c. split; [exact F|]. split; [exact V|]. split; [exact Hin|].
       unfold LIc. cbn [ctl mc]. auto.
     - unfold Dir. rewrite Hp, Ho, Dp. cbn [ctl]. left. auto.
-    - apply (dir_other_frame s s' p Ho Dq); [| |apply (gi_dir s G)].
-      + rewrite Hp, C. cbn [ctl]. apply rview_same. reflexivity.
+    - apply (dir_other_rview s s' p Ho Dq); [| |apply (gi_dir s G)].
+      + rewrite Hp, C. reflexivity.
       + intro st. rewrite Hp. apply committed_keep; cbn [flog mc ctl]; auto. rewrite C. reflexivity.
     - rewrite Heq, Hep. apply (sync_sym s p (gi_sync s G)).
-    - apply (AG_same s s'); [apply (flogs_set s s' p Ho); rewrite Hp; reflexivity| |
+    - apply (AG_same s s'); [apply (flogs_same s s' p Ho); rewrite Hp; reflexivity| |
                              apply (pending_keep s s' p Ho); rewrite C; discriminate|apply (gi_ag s G)].
       destruct p; [exact Hep|exact Heq].
   Qed.
@@ -677,7 +696,7 @@ Section Channel.
     - unfold Dir. rewrite Hp, Ho, Hn, DP', D0, CY. cbn [ctl]. auto.
     - unfold Dir. rewrite other_other, Hp, Ho, Hn, DY', CY. cbn [ctl]. right. left. cbn [handling]. auto.
     - rewrite Heq, Hep. apply (sync_sym s p (gi_sync s G)).
-    - apply (AG_same s s'); [apply (flogs_set s s' p Ho); rewrite Hp; reflexivity| |
+    - apply (AG_same s s'); [apply (flogs_same s s' p Ho); rewrite Hp; reflexivity| |
                              apply (pending_keep s s' p Ho); rewrite C; discriminate|apply (gi_ag s G)].
       destruct p; [exact Hep|exact Heq].
   Qed.
